@@ -2,6 +2,7 @@ package c14
 
 import (
 	"bytes"
+	"errors"
 	"testing"
 	"time"
 
@@ -258,10 +259,104 @@ func tokRecordHostile(t *rapid.T, seeds [][]byte) []byte {
 	return out
 }
 
+// budgetStorage counts the calls an API operation makes on the token storage. Past the budget every call
+// fails with errBudget, which ends any retry loop: the amount of work per operation is judged by the
+// counter, never by the clock.
+type budgetStorage struct {
+	tokencommon.TokenStorage
+	calls  int
+	budget int
+	// stuck: Get of a key that exists fails (what a record that cannot be read back looks like: corrupted
+	// metadata, undecryptable content); Save keeps answering ErrTokenExists for it
+	stuck    bool
+	stuckErr error
+}
+
+var errBudget = errors.New("harness: storage call budget exhausted")
+
+func (b *budgetStorage) over() bool { b.calls++; return b.budget > 0 && b.calls > b.budget }
+func (b *budgetStorage) Save(id []byte, ctx tokencommon.TokenContext, data []byte) error {
+	if b.over() {
+		return errBudget
+	}
+	return b.TokenStorage.Save(id, ctx, data)
+}
+func (b *budgetStorage) Get(id []byte, ctx tokencommon.TokenContext) ([]byte, error) {
+	if b.over() {
+		return nil, errBudget
+	}
+	d, err := b.TokenStorage.Get(id, ctx)
+	if err == nil && b.stuck {
+		return nil, b.stuckErr
+	}
+	return d, err
+}
+
+const tokCallBudget = 64
+
+// tok.stuck: a value is tokenized consistently, then its records become unreadable (every token disabled
+// through the storage's own visitor, as `acra-tokens disable` does, or reads of existing records fail),
+// then the same value and its token go through the API again. Oracle: no panic, and every operation
+// ends after a bounded number of storage calls.
+func targetTokStuck(data []byte) (vs hx.Vs) {
+	if len(data) < 2 {
+		return nil
+	}
+	tt := tokenTypes[int(data[0])%len(tokenTypes)]
+	mode := data[1] % 4
+	val := valueOfType(capLen(data[2:], 64), tt)
+	hx.Guard(&vs, "tok.stuck", func() {
+		ts, err := storage.NewMemoryTokenStorage()
+		if err != nil {
+			panic("harness: " + err.Error())
+		}
+		bs := &budgetStorage{TokenStorage: ts}
+		p, err := pseudonymization.NewPseudoanonymizer(bs)
+		if err != nil {
+			panic("harness: " + err.Error())
+		}
+		tok, err := p.AnonymizeConsistently(val, tokenCtx(), tt)
+		if err != nil {
+			return
+		}
+		switch mode {
+		case 0:
+			_ = ts.VisitMetadata(func(int, tokencommon.TokenMetadata) (tokencommon.TokenAction, error) {
+				return tokencommon.TokenDisable, nil
+			})
+		case 1:
+			bs.stuck, bs.stuckErr = true, errors.New("proto: cannot parse invalid wire-format data")
+		case 2:
+			bs.stuck, bs.stuckErr = true, tokencommon.ErrTokenDisabled
+		default:
+			bs.stuck, bs.stuckErr = true, errors.New("failed to decrypt token record")
+		}
+		bs.budget = tokCallBudget
+		for _, op := range []struct {
+			name string
+			f    func()
+		}{
+			{"AnonymizeConsistently", func() { _, _ = p.AnonymizeConsistently(val, tokenCtx(), tt) }},
+			{"Deanonymize", func() { _, _ = p.Deanonymize(tok, tokenCtx(), tt) }},
+			{"Anonymize", func() { _, _ = p.Anonymize(val, tokenCtx(), tt) }},
+		} {
+			bs.calls = 0
+			op.f()
+			if bs.calls > tokCallBudget {
+				vs.Add("unbounded-work:tok."+op.name, "%s of a value whose stored record cannot be read back (mode %d, type %v) made more than %d storage calls and was only stopped by the harness", op.name, mode, tt, tokCallBudget)
+				return
+			}
+		}
+	})
+	return vs
+}
+
 func init() {
 	nonEmpty := func(d []byte) bool { return len(d) > 0 }
 	register(&target{name: "tok.metadata", group: "FuzzTokens", fn: targetTokMetadata, seeds: tokRecordSeeds, hostile: tokRecordHostile, magic: []byte{0x0a, 0x10, 0x18, 0x20, 0x08},
-		nontrivial: func(d []byte) bool { return len(d) > 0 && (d[0] == 0x0a || d[0] == 0x10 || d[0] == 0x08 || d[0] == 0x18 || d[0] == 0x20) }})
+		nontrivial: func(d []byte) bool {
+			return len(d) > 0 && (d[0] == 0x0a || d[0] == 0x10 || d[0] == 0x08 || d[0] == 0x18 || d[0] == 0x20)
+		}})
 	register(&target{name: "tok.storage", group: "FuzzTokens", fn: targetTokStorage, seeds: tokRecordSeeds, hostile: tokRecordHostile, magic: []byte{0x0a, 0x10, '%'}, nontrivial: nonEmpty})
 	textSeeds := func() [][]byte {
 		return [][]byte{[]byte(""), []byte("a"), []byte("ab"), []byte("abc"), []byte("a@b"), []byte("user@example.com"), []byte("0"), []byte("-1"), []byte("2147483647"), []byte("2147483648"),
@@ -269,7 +364,12 @@ func init() {
 	}
 	register(&target{name: "tok.generate", group: "FuzzTokens", fn: targetTokGenerate, seeds: textSeeds, text: true, nontrivial: func(d []byte) bool { return true }})
 	register(&target{name: "tok.datatokenizer", group: "FuzzTokens", fn: targetTokDataTokenizer, seeds: textSeeds, text: true, weight: 0.6,
-		nontrivial: func(d []byte) bool { return len(d) > 0 && (d[0] == '-' || d[0] == '+' || (d[0] >= '0' && d[0] <= '9') || bytes.IndexByte(d, '@') >= 0) }})
+		nontrivial: func(d []byte) bool {
+			return len(d) > 0 && (d[0] == '-' || d[0] == '+' || (d[0] >= '0' && d[0] <= '9') || bytes.IndexByte(d, '@') >= 0)
+		}})
+	register(&target{name: "tok.stuck", group: "FuzzTokens", fn: targetTokStuck, seeds: func() [][]byte {
+		return [][]byte{{0, 0, '1', '2', '3'}, {2, 1, 'a', 'b', 'c'}, {4, 2, 'a', '@', 'b', '.', 'c'}, {1, 3, '9'}, {3, 0, 0xff, 0}}
+	}, nontrivial: func(d []byte) bool { return len(d) >= 3 }})
 }
 
 func FuzzTokens(f *testing.F) { fuzzGroup(f, "FuzzTokens") }
